@@ -692,3 +692,6 @@ Proof.
   unfold build_batch. rewrite EB. cbn [lift abind]. cbv beta iota zeta. rewrite SL, doc_lens_correct, lens_no_overflow by exact Hs.
   reflexivity.
 Qed.
+
+Print Assumptions doc_lens_correct.
+Print Assumptions build_batch_correct.
